@@ -86,6 +86,7 @@ def run (ctx):
   sorts = [c for c in calls_in(add.node) if isinstance(c.func, ast.Attribute) and c.func.attr == 'sort']
   for c in sorts:
     rv = kwarg(c, 'reverse'); key = kwarg(c, 'key')
+    if isinstance(key, ast.Name) and mod.assigns.get(key.id) is not None: key = mod.assigns[key.id]       # a key function kept in a module constant
     good = rv is not None and norm(rv) == 'True'
     ctx.ob('R-AGREE', add, "handlers sorted by descending priority", good, "reverse=True" if good else "`%s` sorts ascending: lower priorities are delivered first" % norm(c), (mod, c), 'D2')
     kgood = key is not None and (norm(key) in ('operator.itemgetter(0)', 'itemgetter(0)') or
@@ -97,24 +98,32 @@ def run (ctx):
     appn = [q.enclosing_stmt_node(ag, c) for c in adds]
     sticky = lambda e: isinstance(e, ast.Compare) and len(e.ops) == 1 and isinstance(e.ops[0], ast.In) and 'prioritized' in norm(e.comparators[0])
     newprio = lambda e: isinstance(e, ast.Compare) and norm(e.left) == 'priority' and 'DEFAULT_PRIORITY' in norm(e.comparators[0])
-    base = {'self._eventMixin_events is not True': False, 'weak': False}
-    # (a) new handler has a non-default priority -> sort
-    r = q.reach_under(repo, mod, ag, q.Env(base, [(newprio, True), (sticky, False)]), em)
-    ga = any(s in r for s in sn)
-    ctx.ob('R-DOM', add, "a handler added with a non-default priority triggers the sort", ga, "sort reachable" if ga else "sort unreachable for a prioritised subscription", add, 'D2')
-    # (b) default priority added to a list that already holds prioritised handlers -> sort
+    base = {'self._eventMixin_events is not True': False, 'self._eventMixin_events is True': True, 'weak': False, 'byName': False, add.params[1] if len(add.params) > 1 else 'eventType': 'T'}
+    PR = 'self._eventMixin_prioritized'
     has_sticky = any(sticky(x) for x in ast.walk(add.node))
+    def run_sc (new_prio, already):
+      ex = dict(base)
+      if has_sticky: ex[PR] = set(['T']) if already else set()
+      res = []
+      for p_, e_ in q.paths_under(repo, mod, ag, q.Env(ex, [(newprio, new_prio)]), ag.entry, [ag.exit], em, limit=80):
+        if not any(x in p_ for x in appn if x is not None): continue          # rejected subscription
+        res.append((any(x in p_ for x in sn), e_.exact.get(PR)))
+      return res
+    ra = run_sc(True, False)
+    ga = bool(ra) and all(srt for srt, pr_ in ra)
+    ctx.ob('R-DOM', add, "a handler added with a non-default priority triggers the sort", ga, "sorted on every path" if ga else "a prioritised subscription can be stored without the list being sorted (%d of %d paths)" % (sum(1 for srt, pr_ in ra if not srt), len(ra)), add, 'D2')
+    # (b) default priority added to a list that already holds prioritised handlers -> sort
     uncond = all(ag.postdominates(sn, a) for a in appn if a is not None)
     if uncond:
       ctx.ok('R-DOM', add, "a default-priority handler added after prioritised ones is sorted into place", "the list is sorted after every addition", add, 'D2')
     elif has_sticky:
-      r = q.reach_under(repo, mod, ag, q.Env(base, [(lambda e: newprio(e), False), (sticky, True)]), em)
-      gb = any(s in r for s in sn)
-      marks = [c for c in calls_in(add.node) if call_name(c) == 'add' and 'prioritized' in norm(c.func.value)]
-      gm = bool(marks) and all(any(ag.dominates(q.enclosing_stmt_node(ag, m), s) or ag.postdominates(q.enclosing_stmt_node(ag, m), s) for m in marks) for s in sn)
+      rb = run_sc(False, True)
+      gb = bool(rb) and all(srt for srt, pr_ in rb)
+      # the flag is set whenever a prioritised handler was stored (scenario a leaves 'T' in the set)
+      gm = bool(ra) and all(isinstance(pr_, set) and 'T' in pr_ for srt, pr_ in ra)
       ctx.ob('R-DOM', add, "a default-priority handler added after prioritised ones is sorted into place", gb and gm,
-             "sticky per-event flag: set whenever the list is sorted, and consulted on later additions" if gb and gm else
-             "sticky flag present but %s" % ("never set together with the sort" if not gm else "not consulted"), add, 'D2')
+             "sticky per-event flag: set whenever a prioritised handler is stored, and consulted on later additions" if gb and gm else
+             "sticky flag present but %s" % ("not set when a prioritised handler is stored" if not gm else "not consulted"), add, 'D2')
     else:
       ctx.bad('R-DOM', add, "a default-priority handler added after prioritised ones is sorted into place",
               "the sort runs only when the *new* handler has a non-default priority and nothing remembers that the list already holds "
@@ -295,9 +304,17 @@ def run (ctx):
            "raiseEvent is not enclosed by a catch-all handler (%s): a handler's exception propagates to the code that raised the event" % [norm(h.ast.type) for h in hs if h.ast.type is not None], (mod, n.ast), 'D6')
     rer = [h for h in hs if h.ast.type is not None and norm(h.ast.type) == 'ReventError']
     okr = bool(rer) and any(isinstance(s_, ast.Raise) and s_.exc is None for s_ in rer[0].ast.body) and hs.index(rer[0]) < (hs.index(catch_all[0]) if catch_all else 99)
+    # or: the catch-all itself sorts ReventError out and re-raises it
+    guarded_reraise = []
+    for h in catch_all:
+      ids_ = set(id(x) for b_ in h.ast.body for x in ast.walk(b_))
+      for rn_ in [x for x in ng.nodes if x.kind == 'raise_stmt' and id(x.ast) in ids_]:
+        if any(f_.startswith('isinstance(') and 'ReventError' in f_ and f_.endswith(':truthy') for f_ in q.fact_strs(ng, rn_)) and (rn_.ast.exc is None or (h.ast.name and norm(rn_.ast.exc) == h.ast.name)):
+          guarded_reraise.append(rn_)
+    okr = okr or bool(guarded_reraise)
     ctx.ob('R-CONTAIN', rne, "undeclared-event errors still surface", okr, "except ReventError: raise precedes the catch-all" if okr else "ReventError is swallowed", (mod, n.ast), 'D6')
     for h in catch_all:
-      reraise = [s_ for s_ in ast.walk(h.ast) if isinstance(s_, ast.Raise)]
+      reraise = [s_ for s_ in ast.walk(h.ast) if isinstance(s_, ast.Raise) and not any(s_ is g_.ast for g_ in guarded_reraise)]
       ctx.ob('R-CONTAIN', rne, "the catch-all does not re-raise", not reraise, "no raise in the handler" if not reraise else "catch-all handler re-raises", (mod, h.ast), 'D6')
   hk = [c for c in calls_in(rne.node) if call_name(c) == 'handleEventException']
   core = repo.mod('core')
